@@ -471,7 +471,12 @@ impl<T> PooledVec<T> {
         }
 
         let chunk = pool.allocate()?;
-        let capacity = pool.config().chunk_size / element_size;
+        // Zero-sized elements take no room in the chunk
+        let capacity = if element_size == 0 {
+            usize::MAX
+        } else {
+            pool.config().chunk_size / element_size
+        };
 
         Ok(Self {
             ptr: chunk.cast(),
